@@ -11,7 +11,7 @@ Theorem C16_max_improvement_respected :
   g_maximp g = Some mx -> r_win _ (cround g cands sch x) = Some w ->
   (c_improve (cand_at cands w) <= mx)%Z.
 Proof.
-  intros g cands sch x w mx E W. destruct (cround_win_success g cands sch x w W) as (_ & _ & _ & _ & T).
+  intros g cands sch x w mx E W. destruct (cround_win_success g cands sch x w W) as (_ & _ & _ & _ & T & _).
   unfold too_large in T. rewrite E in T. apply Z.ltb_ge in T. exact T.
 Qed.
 
